@@ -247,7 +247,7 @@ def run_scenario(sc, conf, workdir):
     flip = conf.get("flip") or [False] * prog["nobj"]
     dirs = list(conf.get("dirs") or ["minimize"] * prog["nobj"])
     ev = []
-    st = {"phase": "ask", "logged": False, "id_ne": False, "order_ne": False, "names": []}
+    st = {"phase": "ask", "logged": False, "id_ne": False, "order_ne": False, "names": [], "by_number": {}}
     be = sd.Backend(conf["storage"], workdir)
     try:
         storage = be.storage
@@ -276,7 +276,7 @@ def run_scenario(sc, conf, workdir):
         def objective(trial):
             st["phase"] = "obj"
             ev.append({"op": "ask", "s": "ok", "n": trial.number, "id": trial._trial_id})
-            st["names"] = []
+            st["names"] = st["by_number"].setdefault(trial.number, [])
             if trial._trial_id != trial.number:
                 st["id_ne"] = True
             try:
@@ -321,8 +321,6 @@ def run_scenario(sc, conf, workdir):
             ev.append({"op": "final", "s": ft.state.name, "vals": list(ft.values or []),
                        "ps": sorted([n, _param_float(ft, n)] for n in ft.params),
                        "iv": sorted([int(k), float(v)] for k, v in ft.intermediate_values.items())})
-            if list(ft.params) != st["names"][: len(ft.params)]:     # bookkeeping for finding classification only
-                st["order_ne"] = True
             if best_each:
                 best_event()
             st["phase"] = "ask"
@@ -345,6 +343,14 @@ def run_scenario(sc, conf, workdir):
                 break
         if not crashed and not best_each:
             best_event()
+        # bookkeeping for the classification of finding K10 only (never a verdict): did this storage hand back the
+        # parameters of some trial in another order than the trial suggested them?
+        try:
+            for t in study.get_trials(deepcopy=False):
+                if list(t.params) != st["by_number"].get(t.number, [])[: len(t.params)]:
+                    st["order_ne"] = True
+        except Exception:
+            pass
         out = {"events": ev, "id_ne_number": st["id_ne"], "params_order_ne": st["order_ne"], "crashed": crashed}
         if conf.get("copy_to"):
             out["copies"] = [copy_and_project(sc, storage, t, workdir) for t in conf["copy_to"]]
